@@ -222,10 +222,23 @@ class SimFile:
 
     # reader
     def seek(self, off: int, whence: int = 0) -> int:
-        assert whence == 0
         self._rbuf = b""
+        if whence == 2:
+            self.fs._seam("lseek", self.path)  # observes the current size
+            off = len(self.inode.data) + off
+        elif whence == 1:
+            off = self.tell() + off
         self._pos = off
         return off
+
+    def truncate(self, size: int | None = None) -> int:
+        if size is None:
+            size = self.tell()
+        self.flush()
+        self.fs._seam("truncate", self.path)
+        del self.inode.data[size:]
+        self.inode.mtime = self.fs._stamp()
+        return size
 
     def tell(self) -> int:
         return self._pos - len(self._rbuf)
@@ -251,6 +264,8 @@ class SimFile:
                 return line
 
     def read(self, n: int = -1) -> bytes:
+        if "r" not in self.mode and "+" not in self.mode:
+            raise OSError(errno.EBADF, "not readable")
         while n < 0 or len(self._rbuf) < n:
             if not self._fill():
                 break
